@@ -35,6 +35,17 @@ P.assume("frames: sets of variational particles lie behind the real particles an
 P.assume("frames: iadd/isub: r and r2 are different simulations with different particle arrays (the code declares both "
          "pointers restrict)")
 
+P.assume("frames: a variational configuration that is not a test particle has var_config.testparticle == -1 (the value "
+         "reb_simulation_add_variation_* stores; the code tests >= 0); second-order sets are disjoint from their first-order sets")
+P.not_decided += [
+    "frames: several variational configurations in one move_to_com call: each block (second-order, first-order, real "
+    "particles) is proved for an ARBITRARY entry state of the particle array and to touch only its own set, with var_config "
+    "holding exactly one configuration; the sequential composition over N_var_config configurations (outer loops; second-order "
+    "pass before first-order pass, disjoint sets, so every block reads unshifted values) is not machine-checked",
+    "frames: move_to_com with a tree (gravity/collision TREE, LINETREE) or a boundary condition other than NONE: the trailing "
+    "reb_boundary_check / reb_simulation_update_tree may wrap or remove particles; MPI build",
+    "frames: masses of either sign (a negative partial mass sum makes reb_particle_com_of_pair skip the normalisation)",
+]
 I, R = z3.IntSort(), z3.RealSort()
 POS, VEL = ("x", "y", "z"), ("vx", "vy", "vz")
 PV = POS + VEL
@@ -263,7 +274,11 @@ def _(v):
 @P.task("frames.move_to_hel.variational", fn="reb_simulation_move_to_hel")
 def _(v):
     """Consistent first-order variation of x_i' = x_i - x_0 is dx_i' = dx_i - dx_0 for every set of variational
-    particles (set = N_real consecutive particles starting at var_config.index)."""
+    particles (set = N_real consecutive particles starting at var_config.index).
+    FAILS on the unchanged tree (genuine finding, reported to the lead for known_findings.json): the function leaves
+    variational particles untouched (its source says so), so afterwards they are derivatives of the inertial, not of
+    the heliocentric coordinates.  Native witness (python): star + 2 planets, vary(1,"a"), integrate(3), move_to_hel():
+    finite-difference d(x2_hel)/da = -0.0072477 = dx2 - dx0, variational particle 2 keeps x = -0.0058832 = dx2."""
     r, rp, N, Nv, Nr, parts = real_sim(v)
     old = snapshot(parts)
     idx = v.int("index")
